@@ -75,7 +75,7 @@ CLAIMS = {
                 "NamedCal and every CalType variant forward to the wrapped calendar; Cal's leaves are the mask/holiday membership tests; try_new's three "
                 "paths (lower-case before split, >2 parts Err, part 0 -> calendars, part 1 -> settlement) and parse_cals (one lookup per piece, ? "
                 "propagation); the behavioural equalities quantify over 1970-01-01..2200-12-31 and require both agreements on the same date."
-                ' Also included: R05.6 (Python-facing calendar methods). R06.5: the Python-facing __eq__ of the three calendar classes is the core == for every kind of right operand. The NamedCal loader rule (S20.2) and the storage rules of the calendar types (S16.2/3/7) are included.',
+                ' Also included: R05.6 (Python-facing calendar methods). R06.5: the Python-facing __eq__ of the three calendar classes is the core == for every kind of right operand. The NamedCal loader rule (S20.2) and the storage rules of the calendar types (S16.2/3/7) are included; so is the table wiring of C07 (R07.1/R07.2: every name resolves to its own table; fed = nyc minus Good Friday).',
         "design_ref": "DESIGN.md §4 C06",
         "note": "Not decided: nothing about concrete dates (C07). Trusted: lib/cel.py quantifier model; cal_date_range being calendar independent is checked.",
         "technique": "symbolic evaluation with quantifier normal forms (NNF); path flattening; delegation tables",
@@ -128,7 +128,7 @@ CLAIMS = {
                 "first-interval rule of the zero-rate formula; the flat rules are compared as canonical (condition, value) pairs; every interpolator "
                 "must feed nodes index/index+1 of its own map (x0 from index 0) to its own formula in order, with index = node_index = "
                 "index_left(keys, ts, None); CurveDF::try_new sorts on every path to construction and is the only constructor."
-                ' Also: R11.5 (index_left as the bisection recurrence, judged per region of list lengths), R11.6 (node keys converted exactly as the query date), R11.4 widened to every CurveDF construction incl. the loader, R12.2 (sort before tagging) and R12.4 (the Python-facing Curve delegates unchanged). R11.7: first_key()/keys()/sort_keys() of the node map do the same for all three kinds. R11.8: CurveDF::node_index/interpolated_value are the interpolator's on the curve's own nodes.',
+                ' Also: R11.5 (index_left as the bisection recurrence, judged per region of list lengths), R11.6 (node keys converted exactly as the query date), R11.4 widened to every CurveDF construction incl. the loader, R12.2 (sort before tagging) and R12.4 (the Python-facing Curve delegates unchanged). R11.7: first_key()/keys()/sort_keys() of the node map do the same for all three kinds. R11.8: CurveDF::node_index/interpolated_value are those of the interpolator, on the nodes of the curve itself.',
         "design_ref": "DESIGN.md §4 C11",
         "note": "Not decided: index_left (recursive bisection) — which interval a date falls in, clamping; 'between the nodes' is a numeric consequence. Trusted: lib/cel.py.",
         "technique": "symbolic normalisation of typed HIR vs closed forms; MIR must-pass-through (sort before construct); who-may-construct",
@@ -168,7 +168,7 @@ CLAIMS = {
                 "with exact rational coefficients and must equal the form generated from an independent 12-row derivative table; all 48 operand "
                 "mixes must exist; operand-swapping macro only for + and *. This decides that each local rule is the calculus rule as an identity "
                 "over the reals for every variant — a site-quantified argument the sampled tests cannot give. Composition is by induction (C03)."
-                " Also included (necessary conditions at the surface a user touches): the Number container's operator tables (R18.3), Sum as a fold with + (R19.4), the Python-facing operators (R18.4), gradient read-back (R17.1) and C03's alignment rules. R19.2 (abs) is included.",
+                " Also included (necessary conditions at the surface a user touches): the Number container's operator tables (R18.3), Sum as a fold with + (R19.4), the Python-facing operators (R18.4), gradient read-back (R17.1) and C03's alignment rules. R19.2 (abs) is included, and R18.1/R18.2 (tagging a float at an order; kind conversions).",
         "design_ref": "DESIGN.md §4 C01, §2 oracle",
         "note": "Trusted: lib/cel.py normaliser, lib/oracle.py table. Not decided: IEEE rounding, library kernels (atoms), domain edges.",
         "technique": "symbolic normalisation of typed HIR (term rewriting) against a calculus oracle; impl-table completeness",
@@ -176,7 +176,7 @@ CLAIMS = {
     "C02": {
         "text": "As C01 for Dual2 including the half-Hessian (symmetrised cross term, 1/2 convention), plus sibling agreement of value/gradient with "
                 "the first-order operator and field-flow identity of the Dual<->Dual2 conversions."
-                " Also included: R18.3, R19.4, R18.4 (Number container, Sum, Python-facing operators), C17's read-back rules and C03's alignment rules. R19.2 (abs negates value, gradient and Hessian together) is included; so is the manifold rule R17.3 (the gradient as second-order numbers keeps the requested names in the requested order).",
+                " Also included: R18.3, R19.4, R18.4 (Number container, Sum, Python-facing operators), C17's read-back rules and C03's alignment rules. R19.2 (abs negates value, gradient and Hessian together) is included; so is the manifold rule R17.3 (the gradient as second-order numbers keeps the requested names in the requested order). R18.1/R18.2 (tagging a float at an order; kind conversions) are included.",
         "design_ref": "DESIGN.md §4 C02",
         "note": "Trusted: lib/cel.py, lib/oracle.py. Not decided: rounding, kernels, symmetry of user-supplied asymmetric Hessians; read-back factor 2 is in C17.",
         "technique": "symbolic normalisation of typed HIR against a calculus oracle; sibling cross-check",
@@ -187,7 +187,7 @@ CLAIMS = {
                 "repository's own declarative Holiday(...) rule lists over 1970-2200 (the scripts are parsed with ast, never executed); partial "
                 "calendars must contain every weekday occurrence of their interpretable rules; the nine fixing histories must equal the calendars' "
                 "business days over their span. All ~29 000 literals and all 14 names are covered on every run."
-                " Also included: Cal's leaf membership tests (R06.0, R06.2) and the range enumeration used by the back-test (R05.1, R05.5, R04.1, R04.5). The storage rules of the calendar types are included (C16 S16.2/S16.3/S16.7 for calendars::calendar::*: a restored calendar is the stored one). Name-to-table wiring and plumbing are obtained by evaluating the getters on each literal name. The exported get_named_calendar is get_calendar_by_name(name) with the name as given.",
+                " Also included: Cal's leaf membership tests (R06.0, R06.2) and the range enumeration used by the back-test (R05.1, R05.5, R04.1, R04.5). The storage rules of the calendar types are included (C16 S16.2/S16.3/S16.7 for calendars::calendar::*: a restored calendar is the stored one). Name-to-table wiring and plumbing are obtained by evaluating the getters on each literal name. The exported get_named_calendar is get_calendar_by_name(name) with the name as given. R06.3 (a combined name is parsed piece by piece through get_calendar_by_name, every time) is included.",
         "design_ref": "DESIGN.md §4 C07",
         "note": "Trusted: lib/holidays.py (interpreter of the pandas Holiday subset; reproduces every fully interpretable table exactly), python ast/csv. "
                 "Not decided: whether the scripts themselves match the central banks' publications; holidays produced by script-local observance "
@@ -200,7 +200,7 @@ CLAIMS = {
                 "models mirror the serialised fields; the tagged from_json entry point has a variant per writer and each writer wraps its own type; "
                 "pickling pairs serialise/restore the whole object; no bincode-hostile serde attribute; equality covers the serialised fields. These "
                 "are the structural necessary conditions of the round trip; equality of concrete objects is not evaluated."
-                " Also: S16.9 (a validating loader's Ok path demands exactly the shape invariant, so every constructible object loads back) and R10.4 (after update() the stored quotes are the updated ones). S16.10: every constructor code a pickle carries (__getnewargs__ of the u8-coded enums) is accepted by #[new]; S16.7 also requires that a rebuilding conversion returns the constructor's result unchanged.",
+                " Also: S16.9 (a validating loader's Ok path demands exactly the shape invariant, so every constructible object loads back) and R10.4 (after update() the stored quotes are the updated ones). S16.10: every constructor code a pickle carries (__getnewargs__ of the u8-coded enums) is accepted by #[new]; S16.7 also requires that a rebuilding conversion returns the constructor's result unchanged. R06.3 is included (a named calendar stores the name it was given and parsed from).",
         "design_ref": "DESIGN.md §4 C16",
         "note": "Trusted: serde/serde_json/bincode/ndarray/indexmap serde implementations, cargo metadata. Not decided: numerical equality after a round "
                 "trip of concrete objects.",
